@@ -462,3 +462,181 @@ Theorem smooth_none bs : smooth bs = None <-> filter elig bs = [].
 Proof.
   unfold smooth, smooth_by, view. destruct (filter elig bs) as [|b r]; simpl; split; intros H; try reflexivity; discriminate.
 Qed.
+
+(* ------------------------------------------------------------------------------------------- *)
+(* The model run from a freshly initialised BalanceRR satisfies the executable property.          *)
+Lemma view_cons b r : view (b :: r) = if elig b then (b_w b, b_c b) :: view r else view r.
+Proof. unfold view. simpl. destruct (elig b); reflexivity. Qed.
+Lemma elig_ids_cons b r : elig_ids (b :: r) = if elig b then b_id b :: elig_ids r else elig_ids r.
+Proof. unfold elig_ids. simpl. destruct (elig b); reflexivity. Qed.
+Lemma set_c_fields b c : b_w (set_c b c) = b_w b /\ b_c (set_c b c) = c /\ b_id (set_c b c) = b_id b.
+Proof. destruct b as [[[i w] c0] a]. simpl. auto. Qed.
+
+Lemma view_writeback : forall bs s, map fst s = map fst (view bs) -> view (writeback bs s) = s.
+Proof.
+  induction bs as [|b r IH]; intros s H.
+  - simpl in *. destruct s; [reflexivity|discriminate].
+  - simpl writeback. rewrite view_cons in H. destruct (elig b) eqn:E.
+    + destruct s as [|[w c] s']; [discriminate|]. simpl in H. inversion H as [[Hw Hs]].
+      rewrite view_cons, elig_set_c, E. destruct (set_c_fields b c) as [F1 [F2 _]]. rewrite F1, F2.
+      f_equal. apply IH. exact Hs.
+    + rewrite view_cons, E. apply IH. exact H.
+Qed.
+Lemma elig_ids_writeback : forall bs s, elig_ids (writeback bs s) = elig_ids bs.
+Proof.
+  induction bs as [|b r IH]; intros s; [reflexivity|]. simpl writeback. destruct (elig b) eqn:E.
+  - destruct s as [|[w c] s']; [reflexivity|]. rewrite !elig_ids_cons, elig_set_c, E.
+    destruct (set_c_fields b c) as [_ [_ F3]]. rewrite F3, IH. reflexivity.
+  - rewrite !elig_ids_cons, E. apply IH.
+Qed.
+
+Lemma state_nonempty ws n : ws <> [] -> state swrr_pick ws n <> [].
+Proof. intros H E. pose proof (length_state swrr_pick ws n) as L. rewrite E in L. destruct ws; [congruence|discriminate]. Qed.
+
+Lemma picks_run ws : ws <> [] -> forall k n bs, view bs = state swrr_pick ws n ->
+  fst (picks_by swrr_pick bs k) = map (fun j => nth (pick swrr_pick ws j) (elig_ids bs) (-1)) (seq n k).
+Proof.
+  intros Hne. induction k as [|k IH]; intros n bs Hv; [reflexivity|].
+  simpl picks_by. unfold smooth_by. rewrite Hv.
+  destruct (state swrr_pick ws n) as [|x s] eqn:Es; [exfalso; exact (state_nonempty ws n Hne Es)|]. rewrite <- Es.
+  set (bs1 := writeback bs (step (state swrr_pick ws n) (swrr_pick (state swrr_pick ws n)))).
+  assert (Hv1 : view bs1 = state swrr_pick ws (S n)).
+  { unfold bs1. apply view_writeback.
+    change (state swrr_pick ws (S n)) with (step (state swrr_pick ws n) (swrr_pick (state swrr_pick ws n))).
+    unfold step. rewrite map_fst_upd, Hv, Es. reflexivity. }
+  assert (Hid : elig_ids bs1 = elig_ids bs) by apply elig_ids_writeback.
+  specialize (IH (S n) bs1 Hv1). destruct (picks_by swrr_pick bs1 k) as [l bs'] eqn:Ep. simpl in IH. simpl.
+  rewrite IH, Hid. reflexivity.
+Qed.
+Lemma picks_none ch : forall k bs, view bs = [] -> fst (picks_by ch bs k) = repeat (-1) k.
+Proof.
+  induction k as [|k IH]; intros bs Hv; [reflexivity|]. simpl. unfold smooth_by. rewrite Hv.
+  specialize (IH bs Hv). destruct (picks_by ch bs k) as [l bs']. simpl in *. rewrite IH. reflexivity.
+Qed.
+
+Lemma skipn_seq' : forall k s K, skipn k (seq s K) = seq (s + k) (K - k).
+Proof.
+  induction k as [|k IH]; intros s K; simpl.
+  - rewrite Nat.add_0_r, Nat.sub_0_r. reflexivity.
+  - destruct K as [|K]; [reflexivity|]. simpl. rewrite IH. f_equal. lia.
+Qed.
+Lemma firstn_seq' : forall m s K, (m <= K)%nat -> firstn m (seq s K) = seq s m.
+Proof.
+  induction m as [|m IH]; intros s K H; [reflexivity|]. destruct K as [|K]; [lia|]. simpl. f_equal. apply IH. lia.
+Qed.
+
+Lemma cntw_step ch ws i k len : cntw ch ws i k (S len) = (if Nat.eqb i (pick ch ws k) then 1 else 0) + cntw ch ws i (S k) len.
+Proof. unfold cntw. replace (k + S len)%nat with (S k + len)%nat by lia. simpl cnt. lia. Qed.
+
+Lemma count_picks ws ids i : NoDup ids -> (i < length ids)%nat ->
+  (forall j, (pick swrr_pick ws j < length ids)%nat) ->
+  forall len k, count (nth i ids (-1)) (map (fun j => nth (pick swrr_pick ws j) ids (-1)) (seq k len))
+                = cntw swrr_pick ws i k len.
+Proof.
+  intros Hnd Hi Hp. induction len as [|len IH]; intros k.
+  - unfold cntw. rewrite Nat.add_0_r. simpl. lia.
+  - rewrite cntw_step. simpl. rewrite IH. f_equal.
+    destruct (Nat.eqb_spec i (pick swrr_pick ws k)) as [E|E].
+    + rewrite <- E. rewrite Z.eqb_refl. reflexivity.
+    + destruct (Z.eqb_spec (nth i ids (-1)) (nth (pick swrr_pick ws k) ids (-1))) as [E2|E2]; [|reflexivity].
+      exfalso. apply E. apply (proj1 (NoDup_nth ids (-1)) Hnd); auto.
+Qed.
+
+Definition posw (e : Z * Z) : bool := 0 <? snd e.
+Lemma elig_init e : elig (init_backend e) = posw e.
+Proof.
+  destruct e as [i w]. unfold elig, init_backend, posw, b_av, b_w. cbn [fst snd andb].
+  destruct (Z.ltb_spec 0 (100 * w)), (Z.ltb_spec 0 w); try reflexivity; lia.
+Qed.
+Lemma view_init conf : view (init conf) = fresh (map (Z.mul 100) (map snd (filter posw conf))).
+Proof.
+  induction conf as [|e r IH]; [reflexivity|]. unfold init in *. simpl map at 1. rewrite view_cons, elig_init. simpl filter.
+  destruct (posw e); [|exact IH]. simpl. rewrite IH. reflexivity.
+Qed.
+Lemma elig_ids_init conf : elig_ids (init conf) = map fst (filter posw conf).
+Proof.
+  induction conf as [|e r IH]; [reflexivity|]. unfold init in *. simpl map at 1. rewrite elig_ids_cons, elig_init. simpl filter.
+  destruct (posw e); [|exact IH]. simpl. rewrite IH. reflexivity.
+Qed.
+Lemma cfg_elig_init conf : cfg_elig (cfg_init conf) = filter posw conf.
+Proof.
+  unfold cfg_elig, cfg_init. induction conf as [|[i w] r IH]; [reflexivity|]. simpl. unfold posw at 1. simpl.
+  destruct (0 <? w); simpl; rewrite IH; reflexivity.
+Qed.
+Lemma NoDup_filter_fst (conf : list (Z * Z)) f : NoDup (map fst conf) -> NoDup (map fst (filter f conf)).
+Proof.
+  induction conf as [|e r IH]; simpl; intros H; [constructor|]. inversion H; subst.
+  destruct (f e); [|apply IH; assumption]. simpl. constructor; [|apply IH; assumption].
+  intro Hin. apply H2. apply in_map_iff in Hin. destruct Hin as [x [E Hx]]. apply filter_In in Hx.
+  apply in_map_iff. exists x. tauto.
+Qed.
+
+Theorem fresh_run_segment_ok conf k : NoDup (map fst conf) ->
+  segment_ok (cfg_elig (cfg_init conf)) (fst (picks_by swrr_pick (init conf) k)) = true.
+Proof.
+  intros Hnd. rewrite cfg_elig_init.
+  remember (filter posw conf) as pc eqn:Epc.
+  assert (Hv : view (init conf) = fresh (map (Z.mul 100) (map snd pc))) by (subst pc; apply view_init).
+  assert (Hids : elig_ids (init conf) = map fst pc) by (subst pc; apply elig_ids_init).
+  assert (Hndi : NoDup (map fst pc)) by (subst pc; apply NoDup_filter_fst; exact Hnd).
+  assert (Hpos : Forall (fun x => 0 < x) (map snd pc)).
+  { subst pc. apply Forall_forall. intros x Hx. apply in_map_iff in Hx. destruct Hx as [e [E He]].
+    apply filter_In in He. destruct He as [_ He]. unfold posw in He. apply Z.ltb_lt in He. subst x. exact He. }
+  clear Epc Hnd.
+  destruct pc as [|e0 pr].
+  - simpl. rewrite picks_none by (rewrite Hv; reflexivity).
+    apply forallb_forall. intros x Hx. apply repeat_spec in Hx. subst x. reflexivity.
+  - unfold segment_ok. cbv iota.
+    set (pc := e0 :: pr) in *. set (a := map snd pc) in *. set (ids := map fst pc) in *.
+    set (ws := map (Z.mul 100) a) in *.
+    assert (Hane : a <> []) by (unfold a, pc; discriminate).
+    assert (Hwne : ws <> []) by (unfold ws, a, pc; discriminate).
+    assert (Hlen : length ids = length ws) by (unfold ws, a, ids; rewrite !map_length; reflexivity).
+    assert (Hp : forall j, (pick swrr_pick ws j < length ids)%nat).
+    { intros j. unfold pick. rewrite Hlen, <- (length_state swrr_pick ws j). apply swrr_pick_lt. apply state_nonempty. exact Hwne. }
+    rewrite (picks_run ws Hwne k 0%nat (init conf) Hv). rewrite Hids. fold ids.
+    set (f := fun j : nat => nth (pick swrr_pick ws j) ids (-1)).
+    apply andb_true_iff. split.
+    + apply forallb_forall. intros x Hx. apply in_map_iff in Hx. destruct Hx as [j [E _]]. subst x.
+      apply existsb_exists. exists (f j). split; [apply nth_In; apply Hp|apply Z.eqb_refl].
+    + rewrite map_length, seq_length. apply forallb_forall. intros k0 Hk0. apply in_seq in Hk0.
+      set (AA := Z.to_nat (Asum a)) in *.
+      assert (Hwin : firstn AA (skipn k0 (map f (seq 0 k))) = map f (seq k0 AA)).
+      { rewrite skipn_map, firstn_map, skipn_seq', firstn_seq' by lia. reflexivity. }
+      rewrite Hwin. unfold window_ok. apply forallb_forall. intros e He.
+      destruct (In_nth pc e (-1, 0) He) as [i [Hi En]].
+      assert (E1 : fst e = nth i ids (-1)).
+      { unfold ids. rewrite <- En. symmetry. exact (map_nth fst pc (-1, 0) i). }
+      assert (E2 : snd e = ai a i).
+      { unfold ai, a. rewrite <- En. symmetry. exact (map_nth snd pc (-1, 0) i). }
+      rewrite E1, E2. unfold f. rewrite (count_picks ws ids i Hndi); [| unfold ids; rewrite map_length; exact Hi | exact Hp].
+      unfold ws, AA. rewrite (swrr_window_exact_code a Hane Hpos k0 i); [apply Z.eqb_refl|].
+      unfold a. rewrite map_length. exact Hi.
+Qed.
+
+(* wire level: a freshly initialised balancer (distinct backend ids) and one run of k calls *)
+Theorem prop_of_model_fresh : forall conf k,
+  NoDup (map fst conf) -> Z.of_nat k <= max_k ->
+  prop_C01 (VL [VL (map (fun e => VL [VZ (fst e); VZ (snd e)]) conf); VL [VL [VZ 0; VZ (Z.of_nat k)]]])
+           (run_C01 (VL [VL (map (fun e => VL [VZ (fst e); VZ (snd e)]) conf); VL [VL [VZ 0; VZ (Z.of_nat k)]]])) = true.
+Proof.
+  intros conf k Hnd Hk.
+  assert (Hc : dec_conf (VL (map (fun e : Z * Z => VL [VZ (fst e); VZ (snd e)]) conf)) = Some conf).
+  { unfold dec_conf. rewrite map_map. simpl. induction conf as [|[i w] r IH]; [reflexivity|].
+    inversion Hnd; subst. simpl. rewrite (IH H2). reflexivity. }
+  unfold prop_C01, run_C01, dec_in. rewrite Hc. simpl map. unfold dec_op.
+  destruct (Z.leb_spec 0 (Z.of_nat k)); [|lia]. destruct (Z.leb_spec (Z.of_nat k) max_k); [|lia]. simpl andb. cbv iota.
+  simpl all_some. rewrite Nat2Z.id. simpl run_ops.
+  destruct (picks_by swrr_pick (init conf) k) as [l bs'] eqn:Ep. simpl map.
+  assert (Hl : length l = k).
+  { assert (G : forall k bs, length (fst (picks_by swrr_pick bs k)) = k).
+    { clear. induction k as [|k IH]; intros bs; [reflexivity|]. simpl. destruct (smooth_by swrr_pick bs) as [[p b1]|].
+      - specialize (IH b1). destruct (picks_by swrr_pick b1 k). simpl in *. lia.
+      - specialize (IH bs). destruct (picks_by swrr_pick bs k). simpl in *. lia. }
+    specialize (G k (init conf)). rewrite Ep in G. exact G. }
+  unfold dec_out. simpl map. 
+  assert (Hz : as_LZ (vLZ l) = Some l).
+  { unfold as_LZ, vLZ. rewrite map_map. simpl. clear. induction l as [|x r IH]; [reflexivity|]. simpl. rewrite IH. reflexivity. }
+  unfold as_LZ, vLZ in Hz. rewrite Hz. simpl all_some. simpl spec_ops. cbv iota. rewrite Hl, Nat.eqb_refl. simpl andb.
+  pose proof (fresh_run_segment_ok conf k Hnd) as Hs. rewrite Ep in Hs. exact Hs.
+Qed.
